@@ -36,6 +36,10 @@ pub struct CCase {
     /// clients (in the server it is a thread of its own)
     #[serde(default)]
     pub snapshot: bool,
+    /// every client write stores the text the key already holds (`init2`, what the snapshot prelude wrote): the value does
+    /// not change, the version still has to grow and must never go back
+    #[serde(default)]
+    pub same_value: bool,
 }
 
 const KEYS: [&str; 2] = ["k", "j"];
@@ -235,13 +239,14 @@ pub fn run_conc(ctx: &Ctx, case: &CCase) -> Result<Outcome, String> {
         let prog = prog.clone();
         let dbs = node.dbs.clone();
         let dbn = db.clone();
+        let same_value = case.same_value;
         let mut s = Session::new();
         s.send(&node, &format!("use-db {} {}", db, tok));
         tasks.push(Box::new(move |t: &sched::TaskCtx| {
             let mut out = vec![];
             for (oi, wr) in prog.iter().enumerate() {
                 t.pause("cmd");
-                let value = format!("c{}w{}", ci, oi);
+                let value = if same_value { "init2".to_string() } else { format!("c{}w{}", ci, oi) };
                 let (k, delta) = match wr {
                     Wr::Plain { k } => (*k, None),
                     Wr::Versioned { k, delta } | Wr::Api { k, delta } | Wr::Resolve { k, delta, .. } => (*k, Some(*delta)),
@@ -316,7 +321,7 @@ pub fn run_conc(ctx: &Ctx, case: &CCase) -> Result<Outcome, String> {
             // every write was notified exactly once (each changed the stored value: unique values)
             for d in ws.iter() {
                 let c = lines.iter().filter(|l| **l == format!("changed {} {}\n", KEYS[k], d.value)).count();
-                if c > 1 {
+                if c > 1 && !case.same_value {
                     fail = Some(("C19|notifications|duplicated".into(), format!("write {:?} notified {} times: {:?}", d.value, c, lines)));
                 }
             }
@@ -332,6 +337,13 @@ pub fn run_conc(ctx: &Ctx, case: &CCase) -> Result<Outcome, String> {
                             _ => best = Some((ver, vec![val.to_string()])),
                         }
                     }
+                }
+            }
+            if let Some((ver, _)) = &best {
+                // the stored version only grows: what is stored at the end is not below a version a watcher was told
+                let fin_ver = stored(&node, &db, KEYS[k]).map(|x| x.1).unwrap_or(0);
+                if fin_ver < *ver && fail.is_none() {
+                    fail = Some(("C19|stored-version-went-back".into(), format!("key {}: a watcher was told version {}, the key is stored with version {} afterwards; lines {:?}; trace {:?}", KEYS[k], ver, fin_ver, lines, info.trace)));
                 }
             }
             if let Some((ver, vals)) = best {
@@ -458,7 +470,7 @@ pub fn run(ctx: &Ctx, rep: &mut Report) {
     let n = ctx.amount(16_000, 250_000);
     explore(ctx, rep, "sequential", n, (dbk(), prop::collection::vec(wr_strategy(true), 1..7)).prop_map(|(db, writes)| Case { db, writes }), |c| run_seq(ctx, c));
     let n2 = ctx.amount(10_000, 150_000);
-    let cc = (dbk(), prop::collection::vec(prop::collection::vec(wr_strategy(false), 1..4), 2..3), prop::collection::vec(prop_oneof![3 => Just(0u16), 2 => any::<u16>()], 0..50)).prop_map(|(db, clients, schedule)| CCase { db, clients, schedule, snapshot: false }).prop_flat_map(|c| prop::bool::weighted(0.4).prop_map(move |s| CCase { snapshot: s, ..c.clone() }));
+    let cc = (dbk(), prop::collection::vec(prop::collection::vec(wr_strategy(false), 1..4), 2..3), prop::collection::vec(prop_oneof![3 => Just(0u16), 2 => any::<u16>()], 0..50)).prop_map(|(db, clients, schedule)| CCase { db, clients, schedule, snapshot: false, same_value: false }).prop_flat_map(|c| (prop::bool::weighted(0.4), prop::bool::weighted(0.4)).prop_map(move |(s, sv)| CCase { snapshot: s, same_value: s && sv, ..c.clone() }));
     explore(ctx, rep, "concurrent", n2, cc, |c| guard(ctx, c));
     let n3 = ctx.amount(480, 12_000);
     let rc = (2..4usize, prop::collection::vec((wr_strategy(false), prop::bool::weighted(0.5)), 1..7), prop::collection::vec(prop_oneof![3 => Just(0u16), 1 => any::<u16>()], 0..50))
@@ -477,7 +489,7 @@ pub fn run(ctx: &Ctx, rep: &mut Report) {
         for db in ["created", "admin", "restored"] {
             for p in small_programs() {
                 for s in scheds.iter() {
-                    cases.push(CCase { db: db.to_string(), clients: p.clone(), schedule: s.clone(), snapshot: false });
+                    cases.push(CCase { db: db.to_string(), clients: p.clone(), schedule: s.clone(), snapshot: false, same_value: false });
                 }
             }
         }
